@@ -11,11 +11,17 @@
    A1  The world.  What the program can see of the file system is  abspath(input_file)  and what
        lies below it: a pyworld = the last component of that absolute path (pw_base) and what is
        there (pw_kind: nothing, a regular file with its bytes, or a directory with its tree
-       Model.Walk.node), and where the output directory is relative to it (pw_out_in_input, see
-       A11).  Only regular files and directories are represented: no symbolic links
-       (so the followlinks argument of os.walk has no effect here), no sockets / FIFOs / devices
-       (the final else branch of document() is unreachable in this world), no permission errors,
-       and the tree does not change while the program runs.
+       Model.Walk.node), where the output directory is relative to it (pw_out_in_input, see
+       A11), and which entries below it are symbolic links (pw_links, see A12).  The tree is what
+       the calls that FOLLOW symbolic links see (os.path.isdir / isfile / exists, os.scandir with
+       entry.is_file(), opening a file): a symbolic link to a regular file is a file F with the
+       bytes of its target and a symbolic link to a directory is a directory D with the contents
+       of its target.  The only calls that do not follow links are os.path.islink and the descent
+       of os.walk with followlinks=False; both are given by pw_links (A12) -- so the followlinks
+       argument of os.walk DOES have an effect in this world, exactly on the directories pw_links
+       flags.  Broken links, links forming a cycle (an infinite tree under followlinks=True), sockets
+       / FIFOs / devices are not represented (the final else branch of document() is unreachable in
+       this world), there are no permission errors, and the tree does not change while the program runs.
    A2  Listing order.  os.walk and os.scandir list a directory in the order of the children list
        of the tree (the operating system's listing order); os.walk(top, topdown=True) hands the
        loop body, for each directory, its path, the names of its sub-directories and the names of
@@ -24,7 +30,8 @@
        by continue) os.walk looks at the CURRENT contents of the very list object it handed out as
        the second component, and for each name in it, in order, walks  join(top, name)  if that
        is a directory (a name that is not a directory yields nothing: the scandir error is ignored
-       since onerror is None).  A break in the body ends the whole walk.  py_walk_node is a structural
+       since onerror is None) and if it may descend into it (A12: always with followlinks=True,
+       only when it is not a symbolic link with followlinks=False).  A break in the body ends the whole walk.  py_walk_node is a structural
        recursion on the tree: no fuel.  Only in-place mutation of
        that list object is seen by os.walk; rebinding the Python name is not (the translator keeps
        the two apart, see py_os_walk).
@@ -91,7 +98,28 @@
        lists a directory before the loop body runs for it, the body writes only at or below the
        output directory, and the walk never descends into the output directory (the test
        translated with this assumption), so what is created is either never listed or listed only
-       as the name of the output directory, which is pruned like a directory of the tree would be. *)
+       as the name of the output directory, which is pruned like a directory of the tree would be.
+   A12 Symbolic links.  pw_links w rel  says that the directory entry at the relative position rel
+       below the input is a symbolic link.  It is only ever consulted for positions of
+       sub-directories (by os.walk and by the one os.path.islink call of the program); a symlinked
+       FILE is just a file of the tree and needs no flag (every call made on files follows links).
+       A symbolic link to a directory is an ordinary node D of the tree carrying the contents of
+       the link target (A1) and flagged by pw_links.
+         - os.walk(top, followlinks=fl) lists it among the sub-directories of its parent in BOTH
+           modes (the listing uses entry.is_dir(), which follows links; A2 is unchanged).
+         - After the body (A3), for each name still in the handed-out list, os.walk evaluates
+             followlinks or not os.path.islink(join(top, name))
+           and descends only if that holds: with followlinks=True it descends into a symlinked
+           directory like into any directory; with followlinks=False it does NOT descend into it,
+           even when the body left its name in the list (py_walk_node: py_may_descend).  The
+           directory os.walk is called on (top itself) is always walked, link or not.
+         - os.path.islink(p) is pw_links at the components of p for a path below the input without
+           trailing slash; it is False for a path with a trailing slash (lstat resolves the link
+           then), and False below the output directory (py_os_path_islink).  The flag of the empty
+           position (the input itself) is never consulted by the program.
+       Remark on A11: with symbolic links two different normalised absolute paths may denote the
+       same directory; the program compares the strs (os.path.abspath does not resolve links), and
+       so does py_npath_eq: pw_out_in_input is about the spelling of the two paths. *)
 From Coq Require Import String List NArith ZArith Bool Arith.
 From CMinx Require Import Base.Str Base.PySem Model.Writer Model.Path Model.Naming Model.Pipeline
      Model.Walk.
@@ -183,8 +211,10 @@ Definition py_apath_endswith (p : apath) (suffix : str) : bool :=
 (* ------------------------------------------------------------------ *)
 (* the world                                                           *)
 
-(* pw_out_in_input: where the output directory is relative to the input (A11) *)
-Record pyworld := PyWorld { pw_base : str; pw_kind : input_kind; pw_out_in_input : option (list str) }.
+(* pw_out_in_input: where the output directory is relative to the input (A11)
+   pw_links: the entry at this position below the input is a symbolic link (A12) *)
+Record pyworld := PyWorld { pw_base : str; pw_kind : input_kind; pw_out_in_input : option (list str);
+                            pw_links : list str -> bool }.
 
 Definition dir_names (ch : list node) : list str :=
   flat_map (fun n => match n with D nm _ => [nm] | F _ _ => [] end) ch.
@@ -253,6 +283,12 @@ Definition py_os_path_isfile (w : pyworld) (p : apath) : bool :=
   end.
 Definition py_os_path_exists (w : pyworld) (p : apath) : bool :=
   py_os_path_isdir w p || py_os_path_isfile w p.
+(* Python:   os.path.islink(p)   (A12; with a trailing slash lstat resolves the link: False) *)
+Definition py_os_path_islink (w : pyworld) (p : apath) : bool :=
+  match ap_anchor p with
+  | AInput => pw_links w (ap_comps p) && negb (ap_slash p)
+  | AOutput => false
+  end.
 (* Python:   os.path.basename(p) *)
 Definition py_os_path_basename (w : pyworld) (p : apath) : str :=
   if ap_slash p then []
@@ -316,8 +352,15 @@ Fixpoint py_walk_each {St : Type} (step : str -> St -> St * bool) (names : list 
                if stop then (st', true) else py_walk_each step r st'
   end.
 
+(* what os.walk evaluates before descending into new_path = join(top, name)  (A12):
+     followlinks or not os.path.islink(new_path) *)
+Definition py_may_descend (w : pyworld) (followlinks : bool) (new_path : apath) : bool :=
+  followlinks || negb (py_os_path_islink w new_path).
+
 Section OsWalk.
   Context {St : Type}.
+  Variable w : pyworld.
+  Variable followlinks : bool.
   (* the loop body: root, the sub-directory names, the file names, the state  |->  the state, the
      contents of the handed-out sub-directory list when the body ended, how it ended *)
   Variable body : apath -> list str -> list str -> St -> St * list str * py_ctl.
@@ -340,10 +383,14 @@ Section OsWalk.
                              end)) ch in
             py_walk_each
               (fun nm st' =>
-                 match py_assoc_dir table nm with
-                 | Some walk => walk (py_os_path_join top (py_rpath_of_name nm)) st'
-                 | None => (st', false)        (* not a directory: yields nothing *)
-                 end)
+                 let new_path := py_os_path_join top (py_rpath_of_name nm) in
+                 if py_may_descend w followlinks new_path then
+                   match py_assoc_dir table nm with
+                   | Some walk => walk new_path st'
+                   | None => (st', false)        (* not a directory: yields nothing *)
+                   end
+                 else (st', false)               (* a symbolic link that is not followed (A12) *)
+              )
               dirs st1
         end
     end.
@@ -353,12 +400,14 @@ End OsWalk.
    BODY is the function described above; the state is the variables BODY assigns that exist
    before the loop.  The second component BODY returns is the object os.walk handed out (the
    translator returns the variable that still denotes it: the loop variable as long as it has
-   only been mutated in place, its value at the moment of the first rebinding afterwards). *)
+   only been mutated in place, its value at the moment of the first rebinding afterwards).
+   fl decides, together with pw_links of the world, which of the names left in that object are
+   descended into (A12); top itself is walked whether it is a link or not. *)
 Definition py_os_walk {St : Type} (w : pyworld) (top : apath) (followlinks : bool)
            (body : apath -> list str -> list str -> St -> St * list str * py_ctl) (init : St) : St :=
   match ap_anchor top with
   | AInput => match pw_dir_at w (ap_comps top) with
-              | Some ch => fst (py_walk_node body top (D [] ch) init)
+              | Some ch => fst (py_walk_node w followlinks body top (D [] ch) init)
               | None => init
               end
   | AOutput => init
